@@ -2,6 +2,7 @@ package checks
 
 import (
 	"verif/mc/report"
+	"verif/mc/rt"
 	"verif/mc/spec"
 	"verif/mc/ws"
 )
@@ -120,5 +121,100 @@ func C09(c *Ctx, r *report.Run) error {
 	r.States, r.Transitions, r.Traces = r.Evaluations, r.Evaluations, r.Evaluations
 	r.Assumptions = []string{"M-hdr exemplars: must-accept values are valid per the OpenAPI type/format published for the header (RFC 3339 full-time for format time), must-reject values are not well-formed; values in neither set are not judged",
 		"only the Go server is exercised here; the TS server's header gate is part of C08's bridge run"}
+	return nil
+}
+
+func init() { Registry["C02"] = C02 }
+
+// C02: URL-carried fields reach the handler with the URL's value, for every verb.
+func C02(c *Ctx, r *report.Run) error {
+	r.Rule = "for every RPC with path variables and/or query parameters (verbs GET/POST/PUT/DELETE/PATCH, every scalar kind the generators accept, singular/optional/repeated query fields, renamed and required parameters) x every URL-bound field x URL value {every boundary value of the kind, zero, malformed and out-of-range spellings, missing required/optional, repeated occurrence} x body {absent, empty, {}, object omitting the URL-bound fields}: raw request to the generated Go server; oracle = M-pipe: valid -> handler runs once and sees the URL's value in every URL-bound field; unconvertible / missing required -> 400 with a violation naming the field and no dispatch; distinct = (unit, rpc, slot, outcome)"
+	var specs []*spec.Spec
+	for _, s := range serviceSpecs(c) {
+		if !hasTag(s, "ctx") {
+			specs = append(specs, s)
+		}
+	}
+	r.Programs = len(specs)
+	w, err := ws.Build(c.Bins, specs, ws.Options{Variant: ws.H, Tag: "rtH3", Harness: true})
+	if err != nil {
+		return err
+	}
+	units := blocked(r, w, "C02")
+	if err := RunHarness(c, w, r, "c02", units, nil, specIndex(w)); err != nil {
+		return err
+	}
+	r.States, r.Transitions, r.Traces = r.Evaluations, r.Evaluations, r.Evaluations
+	r.Assumptions = []string{"a repeated occurrence of a singular query parameter is not judged (the contract does not say which occurrence wins); empty path segments and the dot segments '.' and '..' are not sent",
+		"the TS server's URL binding is exercised by C08's bridge run"}
+	return nil
+}
+
+func init() { Registry["C10"] = C10 }
+
+// C10: errors surface with the documented status, body, format and client-side type.
+func C10(c *Ctx, r *report.Run) error {
+	r.Rule = "M-pipe error paths: for every RPC x every applicable error source {missing required header, unconvertible path value, missing required query parameter, malformed body, every single-deviation rule violation (nested / repeated / map field paths), plain handler error, sebuf Error, ValidationError from the handler, custom *Error message, wrapped custom error} x request content type {json, x-protobuf, octet-stream} x error hook {none} + all 16 subsets of {set header, WriteHeader(418), return message, write body}: raw request to the generated Go server, response compared with the model (status, encoding, decoded body, violation field set, hook effects, handler ran or not); the un-hooked response is then fed to the generated Go client and the returned error is compared (ValidationError with the same violations / error carrying the message); distinct = (unit, rpc, source, content type, outcome)"
+	var specs []*spec.Spec
+	for _, s := range serviceSpecs(c) {
+		if !hasTag(s, "ctx") && !hasTag(s, "codec") {
+			specs = append(specs, s)
+		}
+	}
+	r.Programs = len(specs)
+	w, err := ws.Build(c.Bins, specs, ws.Options{Variant: ws.HC, Tag: "rtHC10", Harness: true})
+	if err != nil {
+		return err
+	}
+	units := blocked(r, w, "C10")
+	if err := RunHarness(c, w, r, "c10", units, nil, specIndex(w)); err != nil {
+		return err
+	}
+	// model size: states = stages x outcomes, transitions = enumerated paths
+	r.States = 9 + 17
+	r.Transitions = r.Evaluations
+	r.Traces = r.Evaluations
+	r.Assumptions = []string{"M-pipe/M-err as in DESIGN appendix A: which of several offending URL/header names is reported is not fixed; Content-Type is asserted only when the hook did not call WriteHeader; a wrapped custom error may be serialised either as the custom message or as Error{message}",
+		"rule semantics come from the protovalidate stand-in (shared by server and oracle); what is checked is status, encoding and the conversion to dotted field paths"}
+	return nil
+}
+
+func init() { Registry["C11"] = C11 }
+
+// C11: malformed traffic is rejected cleanly and never crashes server or client.
+func C11(c *Ctx, r *report.Run) error {
+	r.Rule = "for every body-carrying echo route of the codec units (one per generated decoder family) and of plain units: (a) every string of length <= L over a 17-symbol JSON token alphabet (L=4 quick, 5 thorough), (b) every byte string of length <= 2 (quick) / 3 (thorough) as binary protobuf, (c) every single mutation (truncation at each byte, each JSON node replaced by 12 hostile values, number<->string, unknown key, duplicate key; protobuf truncations and bit flips) of two valid bodies, sent to the generated Go server; oracle: never panic, never 5xx, 400 carries a decodable ValidationError, a syntactically invalid body is never dispatched, a dispatched request equals the reference decoding (protojson / proto.Unmarshal) or accounts for every member of the body; then every response in status x content-type x body is fed to the generated Go client: no panic, and no success on an undecodable 2xx body; distinct = (unit, rpc, class, outcome)"
+	var specs []*spec.Spec
+	for _, s := range serviceSpecs(c) {
+		if hasTag(s, "core") {
+			specs = append(specs, s)
+		}
+	}
+	r.Programs = len(specs)
+	w, err := ws.Build(c.Bins, specs, ws.Options{Variant: ws.HC, Tag: "rtHC11", Harness: true})
+	if err != nil {
+		return err
+	}
+	units := blocked(r, w, "C11")
+	// one unit per shard entry: split services' methods so that work spreads over the cores
+	var split []rt.JobUnit
+	for _, u := range units {
+		for _, s := range u.Services {
+			for _, m := range s.Methods {
+				nu := u
+				nu.Services = []rt.JobService{{Name: s.Name, Methods: []rt.JobMethod{m}}}
+				split = append(split, nu)
+			}
+		}
+	}
+	if err := RunHarness(c, w, r, "c11", split, nil, specIndex(w)); err != nil {
+		return err
+	}
+	if err := RunHarness(c, w, r, "c11client", split, nil, specIndex(w)); err != nil {
+		return err
+	}
+	r.States, r.Transitions, r.Traces = r.Evaluations, r.Evaluations, r.Evaluations
+	r.Assumptions = []string{"an empty body (length 0) is read as 'no body' and may be dispatched as the default message", "duplicate JSON keys are not judged",
+		"bodies longer than L tokens / more than one mutation away from a valid body are not covered"}
 	return nil
 }
